@@ -16,16 +16,22 @@ import (
 	"math"
 	"os"
 	"path/filepath"
-	"sort"
+	"runtime"
+	"runtime/debug"
 	"strconv"
 	"strings"
 	"testing"
+	"time"
 
+	"github.com/openGemini/openGemini/engine/immutable/colstore"
 	"github.com/openGemini/openGemini/lib/binaryfilterfunc"
 	"github.com/openGemini/openGemini/lib/fragment"
 	"github.com/openGemini/openGemini/lib/record"
+	"github.com/openGemini/openGemini/lib/rpn"
+	"github.com/openGemini/openGemini/lib/tokenizer"
 	"github.com/openGemini/openGemini/lib/util"
 	"github.com/openGemini/openGemini/lib/util/lifted/influx/influxql"
+	"github.com/openGemini/openGemini/lib/util/lifted/influx/query"
 	"github.com/openGemini/openGemini/lib/util/lifted/vm/protoparser/influx"
 	kit "github.com/openGemini/openGemini/lib/verifkit"
 )
@@ -59,11 +65,15 @@ type c20Schema struct {
 	Name string
 	Cols []c20Col // key columns first (in key order), then non-key columns
 	NKey int
+	// TC: column 0 is the time-cluster column (record.TimeClusterCol) that PKIndexWriterImpl.Build
+	// prepends to the primary key when tcLocation > colstore.DefaultTCLocation
+	TC bool
 }
 
+// timeIdx: the key column constrained by the query's time range (time itself, or the clustered time).
 func (s *c20Schema) timeIdx() int {
 	for i := 0; i < s.NKey; i++ {
-		if s.Cols[i].Name == record.TimeField {
+		if s.Cols[i].Name == record.TimeField || s.Cols[i].Name == record.TimeClusterCol {
 			return i
 		}
 	}
@@ -106,6 +116,10 @@ func c20BoolCol(name string, nullable bool) c20Col {
 		NullTiesFirst: true, Ops: c20Cmp6()}
 	c.Lits = []c20Lit{{"false", 1}, {"true", 3}}
 	return c
+}
+
+func c20TCCol() c20Col {
+	return c20Col{Name: record.TimeClusterCol, Typ: influx.Field_Type_Int, Dom: []string{"1", "2"}}
 }
 
 func c20TimeCol() c20Col {
@@ -459,7 +473,8 @@ func (c c20Cond) mask(am []uint16) uint16 {
 	}
 }
 
-// allAtoms lists every atom of the schema's grammar. reduced = the smaller alphabet used for 3-atom trees.
+// allAtoms lists every atom of the schema's grammar. reduced = the smaller alphabet used for 3-atom trees:
+// operators = != < >=, the first two domain values, plus "= <literal between them>"; one atom on the non-key column.
 func (s *c20Schema) allAtoms(reduced bool) []c20Atom {
 	var out []c20Atom
 	for ci := range s.Cols {
@@ -477,8 +492,13 @@ func (s *c20Schema) allAtoms(reduced bool) []c20Atom {
 				if op == "MATCHPHRASE" && l.Rank != 1 && l.Rank != 3 && l.Rank != 6 {
 					continue
 				}
-				if reduced && l.Rank%2 == 0 && l.Rank != 2 {
-					continue // keep on-domain literals and one literal between two values
+				if reduced {
+					if c.ByPosition && !(op == "=" && l.Rank == 1) {
+						continue
+					}
+					if !(l.Rank == 1 || l.Rank == 3 || (l.Rank == 2 && op == "=")) {
+						continue
+					}
 				}
 				out = append(out, c20Atom{Col: ci, Op: op, Lit: li})
 			}
@@ -571,7 +591,10 @@ func (s *c20Schema) rowsText(rows []c20Row) []string {
 func (s *c20Schema) buildPK(rows []c20Row, layout []int) (*record.Record, fragment.IndexFragment, error) {
 	data := s.dataRecord(rows)
 	w := NewPKIndexWriter()
-	return w.Build(data, s.recSchema(s.NKey), layout, -1 /* colstore.DefaultTCLocation */, 0)
+	if s.TC {
+		return w.Build(data, s.recSchema(s.NKey)[1:], layout, 0, 0)
+	}
+	return w.Build(data, s.recSchema(s.NKey), layout, colstore.DefaultTCLocation, 0)
 }
 
 func c20RecSig(r *record.Record) string {
@@ -657,25 +680,6 @@ func (s *c20Schema) timeMask(tr c20TimeRange, rows []c20Row) uint16 {
 	return m
 }
 
-// c20Classify names the cause of a primary-key violation (matched against KNOWN_FINDINGS signatures).
-func (s *c20Schema) classifyPK(atoms []c20Atom, c c20Cond, rows []c20Row, warm int, errText string) string {
-	if warm > 0 {
-		return "pk_wrong_after_index_record_mutated_by_earlier_scan"
-	}
-	hasNullKey := false
-	for _, r := range rows {
-		for i := 0; i < s.NKey; i++ {
-			if r[i] < 0 {
-				hasNullKey = true
-			}
-		}
-	}
-	if hasNullKey {
-		return "pk_null_key_pruned"
-	}
-	return "pk_fragment_with_match_pruned"
-}
-
 type c20PKStats struct {
 	scans, cases, nontrivial, condRejected, scanErr, mutated int64
 }
@@ -695,6 +699,7 @@ func (s *c20Schema) checkPKCase(atoms []c20Atom, rows []c20Row, layout []int, c 
 	if fs < 1 {
 		fs = 1
 	}
+	snap := c20SnapRec(pkRec)
 	var cov uint16
 	var et string
 	for k := 0; k <= warm; k++ {
@@ -709,9 +714,15 @@ func (s *c20Schema) checkPKCase(atoms []c20Atom, rows []c20Row, layout []int, c 
 	if need&^cov == 0 {
 		return false, "", ""
 	}
-	return true, s.classifyPK(atoms, c, rows, warm, et),
-		fmt.Sprintf("fragments with a matching row: %s; fragments returned by Scan: %s; pruned wrongly: %s; matching rows: %s; index record: %s",
-			c20Bits(need), c20Bits(cov), c20Bits(need&^cov), c20Bits(match), strings.ReplaceAll(pkRec.String(), "\n", " "))
+	after := strings.ReplaceAll(pkRec.String(), "\n", " ")
+	kind, why := c20Causes[2], "wrong only after an earlier scan of the same condition rewrote the cached index record"
+	if warm == 0 {
+		kind, why = (&c20Classifier{pkRec: pkRec, mark: mark, kc: kc, set: set, fs: fs, snap: snap}).kind(need)
+	}
+	c20RestoreRec(pkRec, snap)
+	return true, kind,
+		fmt.Sprintf("fragments with a matching row: %s; fragments returned by Scan: %s; pruned wrongly: %s; matching rows: %s; %s; index record as built: %s; after the scan: %s",
+			c20Bits(need), c20Bits(cov), c20Bits(need&^cov), c20Bits(match), why, strings.ReplaceAll(pkRec.String(), "\n", " "), after)
 }
 
 func c20Bits(m uint16) string {
@@ -753,15 +764,10 @@ func (cs *c20Case) key() string {
 
 type c20Plan struct {
 	Schema     c20Schema
-	MaxRows    int
-	MaxAtoms   int          // full atom alphabet up to this many atoms
-	Max3Rows   int          // 3-atom trees (reduced alphabet) on records up to this many rows (0 = none)
-	Times      []c20TimeRange
-	Times2     []c20TimeRange // time ranges combined with 2-atom trees (subset)
-	Settings   []c20Setting
-	Settings2  []c20Setting // settings used for trees of >= 2 atoms
-	AllLayouts bool         // every composition of the rows into fragments of 1..3 rows instead of fixed sizes
-	Warm       bool         // additionally scan twice on the same cached index record
+	Rows       [3]int            // Rows[k-1] = largest record (rows) on which trees of k atoms are run; 3-atom trees use the reduced alphabet
+	Times      [3][]c20TimeRange // time ranges combined with trees of k atoms
+	Settings   [3][]c20Setting   // reader settings used for trees of k atoms
+	AllLayouts bool              // every composition of the rows into fragments of 1..3 rows instead of the fixed sizes 1,2,3
 }
 
 func c20Plans(thorough bool) []c20Plan {
@@ -773,19 +779,1240 @@ func c20Plans(thorough bool) []c20Plan {
 	times := []c20TimeRange{{}, {1, 1, true}, {2, 2, true}, {0, 1, true}, {2, 3, true}, {3, 3, true},
 		{1, influxql.MaxTime, true}, {2, influxql.MaxTime, true}, {influxql.MinTime, 1, true}, {influxql.MinTime, 0, true}}
 	times2 := []c20TimeRange{{}, {2, 2, true}, {influxql.MinTime, 1, true}}
+	// (CoarseIndexFragment, MinRowsForSeek, force exclusion search); production: (8, 0)
 	setAll := []c20Setting{{8, 0, false}, {2, 0, false}, {3, 0, false}, {8, 1, false}, {2, 2, false}, {8, 0, true}, {2, 0, true}, {3, 1, true}}
-	set2 := []c20Setting{{8, 0, false}, {2, 0, false}, {2, 0, true}}
+	set2 := []c20Setting{{8, 0, false}, {2, 0, true}}
+	set1 := []c20Setting{{8, 0, false}}
+	nt := [3][]c20TimeRange{noTime, noTime, noTime}
 	var ps []c20Plan
 	if !thorough {
 		ps = append(ps,
-			c20Plan{Schema: mk("s", c20StrCol("s", false, true)), MaxRows: 5, MaxAtoms: 2, Max3Rows: 5, Times: noTime, Times2: noTime, Settings: setAll, Settings2: set2, Warm: true},
-			c20Plan{Schema: mk("i", c20IntCol("i", false, true)), MaxRows: 5, MaxAtoms: 2, Max3Rows: 5, Times: noTime, Times2: noTime, Settings: setAll, Settings2: set2, Warm: true},
-			c20Plan{Schema: mk("s,i", c20StrCol("s", false, true), c20IntCol("i", false, true)), MaxRows: 5, MaxAtoms: 2, Max3Rows: 3, Times: noTime, Times2: noTime, Settings: setAll, Settings2: set2},
-			c20Plan{Schema: mk("i,s", c20IntCol("i", false, true), c20StrCol("s", false, true)), MaxRows: 4, MaxAtoms: 2, Max3Rows: 0, Times: noTime, Times2: noTime, Settings: setAll, Settings2: set2},
-			c20Plan{Schema: mk("s,time", c20StrCol("s", false, false), c20TimeCol()), MaxRows: 5, MaxAtoms: 2, Max3Rows: 0, Times: times, Times2: times2, Settings: setAll, Settings2: set2},
-			c20Plan{Schema: mk("s,i,time", c20StrCol("s", false, false), c20IntCol("i", false, false), c20TimeCol()), MaxRows: 4, MaxAtoms: 2, Max3Rows: 0, Times: times, Times2: times2[:2], Settings: setAll, Settings2: set2[:2], Warm: true},
+			c20Plan{Schema: mk("s", c20StrCol("s", false, true)), Rows: [3]int{5, 5, 5}, Times: nt,
+				Settings: [3][]c20Setting{setAll, setAll[:3], set2}},
+			c20Plan{Schema: mk("i", c20IntCol("i", false, true)), Rows: [3]int{5, 5, 5}, Times: nt,
+				Settings: [3][]c20Setting{setAll, setAll[:3], set2}},
+			c20Plan{Schema: mk("s,i", c20StrCol("s", false, true), c20IntCol("i", false, true)), Rows: [3]int{5, 4, 2}, Times: nt,
+				Settings: [3][]c20Setting{setAll, set2, set1}},
+			c20Plan{Schema: mk("i,s", c20IntCol("i", false, true), c20StrCol("s", false, true)), Rows: [3]int{4, 3, 0}, Times: nt,
+				Settings: [3][]c20Setting{setAll, set2, set1}},
+			c20Plan{Schema: mk("s,time", c20StrCol("s", false, false), c20TimeCol()), Rows: [3]int{5, 5, 0},
+				Times: [3][]c20TimeRange{times, times2, noTime}, Settings: [3][]c20Setting{setAll, set2, set1}},
+			c20Plan{Schema: mk("s,i,time", c20StrCol("s", false, false), c20IntCol("i", false, false), c20TimeCol()), Rows: [3]int{4, 3, 0},
+				Times: [3][]c20TimeRange{times, times2[:2], noTime}, Settings: [3][]c20Setting{setAll, set2, set1}},
 		)
 		return ps
+	}
+	at := [3][]c20TimeRange{times, times2, times2[:2]}
+	sAll := [3][]c20Setting{setAll, setAll, set2}
+	sMid := [3][]c20Setting{setAll, set2, set1}
+	tc := mk("tc,s", c20TCCol(), c20StrCol("s", false, false))
+	tc.TC = true
+	ps = append(ps,
+		c20Plan{Schema: mk("s", c20StrCol("s", true, true)), Rows: [3]int{6, 6, 6}, Times: nt, Settings: sAll, AllLayouts: true},
+		c20Plan{Schema: mk("i", c20IntGapCol("i", true)), Rows: [3]int{6, 6, 6}, Times: nt, Settings: sAll, AllLayouts: true},
+		c20Plan{Schema: mk("f", c20FloatCol("f", true)), Rows: [3]int{6, 6, 6}, Times: nt, Settings: sAll, AllLayouts: true},
+		c20Plan{Schema: mk("b", c20BoolCol("b", true)), Rows: [3]int{6, 6, 6}, Times: nt, Settings: sAll, AllLayouts: true},
+		c20Plan{Schema: mk("s,i", c20StrCol("s", false, true), c20IntCol("i", false, true)), Rows: [3]int{6, 5, 3}, Times: nt, Settings: sMid},
+		c20Plan{Schema: mk("i,s", c20IntCol("i", false, true), c20StrCol("s", false, true)), Rows: [3]int{6, 5, 3}, Times: nt, Settings: sMid},
+		c20Plan{Schema: mk("s,f", c20StrCol("s", false, false), c20FloatCol("f", true)), Rows: [3]int{5, 4, 3}, Times: nt, Settings: sMid, AllLayouts: true},
+		c20Plan{Schema: mk("b,i", c20BoolCol("b", false), c20IntGapCol("i", true)), Rows: [3]int{5, 4, 3}, Times: nt, Settings: sMid, AllLayouts: true},
+		c20Plan{Schema: mk("bn,s", c20BoolCol("bn", true), c20StrCol("s", false, false)), Rows: [3]int{4, 3, 0}, Times: nt, Settings: sMid},
+		c20Plan{Schema: mk("s,time", c20StrCol("s", false, true), c20TimeCol()), Rows: [3]int{6, 5, 3}, Times: at, Settings: sMid},
+		c20Plan{Schema: tc, Rows: [3]int{6, 5, 3}, Times: at, Settings: sMid},
+		c20Plan{Schema: mk("s,i,time", c20StrCol("s", false, false), c20IntCol("i", false, false), c20TimeCol()), Rows: [3]int{5, 4, 2}, Times: at, Settings: sMid},
+		c20Plan{Schema: mk("sn,in,time", c20StrCol("sn", false, true), c20IntCol("in", false, true), c20TimeCol()), Rows: [3]int{4, 3, 0},
+			Times: [3][]c20TimeRange{times2, times2[:2], noTime}, Settings: sMid},
+		c20Plan{Schema: mk("i,s,time", c20IntCol("i", false, false), c20StrCol("s", false, false), c20TimeCol()), Rows: [3]int{4, 3, 0}, Times: at, Settings: sMid},
+		c20Plan{Schema: mk("s,i,j", c20StrCol("s", false, false), c20IntCol("i", false, true), c20IntCol("j", false, false)), Rows: [3]int{4, 3, 2}, Times: nt, Settings: sMid},
+	)
+	return ps
+}
+
+// ---------------------------------------------------------------------------------------------
+// explorer for the primary-key index
+// ---------------------------------------------------------------------------------------------
+
+type c20PKRun struct {
+	p      *c20Plan
+	s      *c20Schema
+	rep    *kit.Report
+	atoms  []c20Atom
+	conds  []c20Cond // ordered by number of atoms
+	nAtoms []int
+	kcs    map[[2]int]KeyCondition // (cond, time) -> key condition; nil = rejected by NewKeyCondition
+	vio    map[string]int
+	st     c20PKStats
+	wi     *int // global work-item counter (sharding)
+}
+
+func c20NewPKRun(p *c20Plan, rep *kit.Report, wi *int) *c20PKRun {
+	r := &c20PKRun{p: p, s: &p.Schema, rep: rep, kcs: map[[2]int]KeyCondition{}, vio: map[string]int{}, wi: wi}
+	r.atoms = r.s.allAtoms(false)
+	add := func(c c20Cond) { r.conds = append(r.conds, c); r.nAtoms = append(r.nAtoms, len(c.Atoms)) }
+	for a := range r.atoms {
+		add(c20Cond{Atoms: []int{a}})
+	}
+	if p.Rows[1] > 0 {
+		for a := range r.atoms {
+			for b := range r.atoms {
+				add(c20Cond{Atoms: []int{a, b}, Shape: 1, And: [2]bool{true}})
+				add(c20Cond{Atoms: []int{a, b}, Shape: 1, And: [2]bool{false}})
+			}
+		}
+	}
+	if p.Rows[2] > 0 {
+		var red []int
+		for _, ra := range r.s.allAtoms(true) {
+			for i, a := range r.atoms {
+				if a == ra {
+					red = append(red, i)
+				}
+			}
+		}
+		for _, a := range red {
+			for _, b := range red {
+				for _, c := range red {
+					for shape := 2; shape <= 3; shape++ {
+						for o := 0; o < 4; o++ {
+							add(c20Cond{Atoms: []int{a, b, c}, Shape: shape, And: [2]bool{o&1 != 0, o&2 != 0}})
+						}
+					}
+				}
+			}
+		}
+	}
+	return r
+}
+
+func (r *c20PKRun) kc(ci, ti int, tr c20TimeRange) KeyCondition {
+	k := [2]int{ci, ti}
+	if v, ok := r.kcs[k]; ok {
+		return v
+	}
+	var out KeyCondition
+	func() {
+		defer func() {
+			if p := recover(); p != nil {
+				r.rep.Count("pk_condition_build_panic", 1)
+			}
+		}()
+		kc, err := NewKeyCondition(r.s.timeCond(tr), r.s.condExpr(r.atoms, r.conds[ci]), r.s.recSchema(r.s.NKey))
+		if err != nil {
+			r.rep.Count("pk_condition_rejected_with_error", 1)
+			return
+		}
+		out = kc
+	}()
+	r.kcs[k] = out
+	return out
+}
+
+func c20SnapRec(rec *record.Record) [][]byte {
+	var out [][]byte
+	for i := range rec.ColVals {
+		out = append(out, append([]byte(nil), rec.ColVals[i].Val...), append([]byte(nil), rec.ColVals[i].Bitmap...))
+	}
+	return out
+}
+
+func c20RecChanged(rec *record.Record, snap [][]byte) bool {
+	for i := range rec.ColVals {
+		if string(rec.ColVals[i].Val) != string(snap[2*i]) || string(rec.ColVals[i].Bitmap) != string(snap[2*i+1]) {
+			return true
+		}
+	}
+	return false
+}
+
+func c20RestoreRec(rec *record.Record, snap [][]byte) {
+	for i := range rec.ColVals {
+		rec.ColVals[i].Val = append(rec.ColVals[i].Val[:0], snap[2*i]...)
+		rec.ColVals[i].Bitmap = append(rec.ColVals[i].Bitmap[:0], snap[2*i+1]...)
+	}
+}
+
+func (r *c20PKRun) layouts(n int) [][]int {
+	var out [][]int
+	if !r.p.AllLayouts {
+		for fs := 1; fs <= 3; fs++ {
+			out = append(out, c20FixedLayout(n, fs))
+		}
+		return out
+	}
+	var cur []int
+	var rec func(left int)
+	rec = func(left int) {
+		if left == 0 {
+			out = append(out, c20SizesLayout(cur))
+			return
+		}
+		for sz := 1; sz <= 3 && sz <= left; sz++ {
+			cur = append(cur, sz)
+			rec(left - sz)
+			cur = cur[:len(cur)-1]
+		}
+	}
+	rec(n)
+	return out
+}
+
+func (r *c20PKRun) report(kind string, rows []c20Row, layout []int, ci int, tr c20TimeRange, set c20Setting, warm int) {
+	c := r.conds[ci]
+	r.vio[kind]++
+	r.rep.Count("violations_"+kind, 1)
+	if r.vio[kind] > 12 {
+		r.rep.Violation(kind, "", "", nil) // counted; the kit keeps the first 8 per kind with detail
+		return
+	}
+	// re-execute the case from scratch (no caches): this is exactly what `replay` does
+	bad, kind2, detail := r.s.checkPKCase(r.atoms, rows, layout, c, tr, set, warm)
+	cs := r.s.mkCase("pk", r.atoms, rows, layout, c, tr, set, warm)
+	if !bad || kind2 != kind {
+		r.rep.Count("harness_violation_not_reproduced_from_scratch", 1)
+		r.rep.Note("NOT REPRODUCED FROM SCRATCH (harness bug): explorer kind=%s scratch bad=%v kind=%s: %s", kind, bad, kind2, cs.key())
+		return
+	}
+	r.rep.Violation(kind, cs.key(), detail, cs)
+}
+
+func (r *c20PKRun) run() {
+	s := r.s
+	tuples := s.tuples()
+	for n := 1; n <= r.p.Rows[0]; n++ {
+		var recs [][]c20Row
+		s.sortedRecords(tuples, n, func(rows []c20Row) { recs = append(recs, append([]c20Row(nil), rows...)) })
+		r.rep.Count("pk_records", int64(len(recs)))
+		for _, layout := range r.layouts(n) {
+			bounds := c20Bounds(layout, n)
+			// group the records by the rows the index writer copies (fragment starts + last row)
+			idxRows := append(append([]int{0}, layout...))
+			groups := map[string][]int{}
+			var order []string
+			for ri, rows := range recs {
+				var kb []byte
+				for _, ir := range idxRows {
+					for c := 0; c < s.NKey; c++ {
+						kb = append(kb, byte(rows[ir][c]+1))
+					}
+				}
+				k := string(kb)
+				if _, ok := groups[k]; !ok {
+					order = append(order, k)
+				}
+				groups[k] = append(groups[k], ri)
+			}
+			for _, gk := range order {
+				mine := kit.Mine(*r.wi)
+				*r.wi++
+				if !mine {
+					continue
+				}
+				if r.rep.Expired() {
+					return
+				}
+				r.group(recs, groups[gk], layout, bounds, n)
+			}
+		}
+	}
+}
+
+func (r *c20PKRun) group(recs [][]c20Row, members []int, layout, bounds []int, n int) {
+	s := r.s
+	pkRec, mark, err := s.buildPK(recs[members[0]], layout)
+	if err != nil {
+		r.rep.Count("pk_build_error", 1)
+		return
+	}
+	snap := c20SnapRec(pkRec)
+	fs := layout[0]
+	if fs < 1 {
+		fs = 1
+	}
+	nfrag := len(layout)
+	allFrag := uint16(1<<nfrag) - 1
+	ams := make([][]uint16, len(members))
+	for mi, m := range members {
+		ams[mi] = s.atomMasks(r.atoms, recs[m])
+	}
+	var evals, nontrivial int64
+	for ci, c := range r.conds {
+		na := r.nAtoms[ci]
+		if n > r.p.Rows[na-1] {
+			if na == 3 {
+				break
+			}
+			continue
+		}
+		times, sets := r.p.Times[na-1], r.p.Settings[na-1]
+		for ti, tr := range times {
+			kc := r.kc(ci, ti, tr)
+			if kc == nil {
+				continue
+			}
+			for si, set := range sets {
+				cov, et := c20Scan(pkRec, mark, kc, set, fs)
+				r.st.scans++
+				var cov2 uint16
+				mutated := false
+				if c20RecChanged(pkRec, snap) {
+					mutated = true
+					r.st.mutated++
+					var et2 string
+					cov2, et2 = c20Scan(pkRec, mark, kc, set, fs)
+					if et2 != "" {
+						cov2 = allFrag
+					}
+					c20RestoreRec(pkRec, snap)
+				}
+				if et != "" {
+					r.st.scanErr++
+					if strings.HasPrefix(et, "panic") {
+						r.rep.Count("pk_scan_panic", 1)
+					}
+					continue
+				}
+				if cov == allFrag && (!mutated || cov2 == allFrag) {
+					evals += int64(len(members))
+					continue
+				}
+				var cls *c20Classifier
+				for mi, m := range members {
+					evals++
+					match := c.mask(ams[mi]) & s.timeMask(tr, recs[m])
+					if match == 0 {
+						continue
+					}
+					if si == 0 {
+						nontrivial++
+						if nontrivial&1023 == 1 {
+							if r.rep.DistinctNontrivial(kit.Hash(s.Name, fmt.Sprint(layout), s.condText(r.atoms, c), tr.String())) {
+								cs := s.mkCase("pk", r.atoms, recs[m], layout, c, tr, set, 0)
+								r.rep.Sample(4, map[string]any{"part": "pk", "schema": s.Name, "rows": cs.RowsText, "layout": layout, "cond": cs.Text,
+									"fragments_returned": c20Bits(cov), "matching_rows": c20Bits(match)})
+							}
+						}
+					}
+					need := c20Needed(bounds, match)
+					if need&^cov != 0 {
+						if cls == nil {
+							cls = &c20Classifier{pkRec: pkRec, mark: mark, kc: kc, set: set, fs: fs, snap: snap}
+						}
+						kind, _ := cls.kind(need)
+						r.report(kind, recs[m], layout, ci, tr, set, 0)
+					} else if mutated && need&^cov2 != 0 {
+						r.report(c20Causes[2], recs[m], layout, ci, tr, set, 1)
+					}
+				}
+			}
+		}
+	}
+	r.rep.Eval(evals)
+	r.rep.Count("nontrivial_cases", nontrivial)
+}
+
+func (r *c20PKRun) flush() {
+	r.rep.Count("pk_scans", r.st.scans)
+	r.rep.Count("pk_scan_error_or_panic", r.st.scanErr)
+	r.rep.Count("pk_index_record_mutated_by_scan", r.st.mutated)
+	r.rep.Count("pk_conditions", int64(len(r.conds)))
+}
+
+// ---------------------------------------------------------------------------------------------
+// test entry
+// ---------------------------------------------------------------------------------------------
+
+func c20FindPlan(name string, thorough bool) *c20Plan {
+	ps := c20Plans(thorough)
+	for i := range ps {
+		if ps[i].Schema.Name == name {
+			return &ps[i]
+		}
+	}
+	return nil
+}
+
+func TestVerifC20(t *testing.T) {
+	rep := kit.NewReport("C20")
+	defer rep.Save()
+	// the code under test allocates on every range check; the harness keeps a modest live heap
+	// (records, cached key conditions), so a lazier collector only trades memory for time
+	debug.SetGCPercent(800)
+	if kit.ReplayPath() != "" {
+		var part struct {
+			Part string `json:"part"`
+		}
+		if err := kit.LoadReplay(&part); err != nil {
+			t.Fatal(err)
+		}
+		var cs c20Case
+		if part.Part != "skip" {
+			if err := kit.LoadReplay(&cs); err != nil {
+				t.Fatal(err)
+			}
+		}
+		if part.Part == "skip" {
+			var sk c20SkCase
+			if err := kit.LoadReplay(&sk); err != nil {
+				t.Fatal(err)
+			}
+			rep.Eval(1)
+			nIdx := len(sk.Cols) - 1 // the last column is the non-indexed by-position column
+			res := sk.check(&c20SkEnv{scratch: kit.Scratch()}, nIdx)
+			if res.bad {
+				rep.Violation(res.kind, sk.key(), res.detail, sk)
+			} else if res.errText != "" {
+				rep.Note("replay: %s", res.errText)
+			}
+			return
+		}
+		c20Replay(t, rep, &cs)
+		return
+	}
+	wi := 0
+	for _, p := range c20Plans(kit.Thorough()) {
+		p := p
+		if only := os.Getenv("C20_ONLY"); only != "" && only != p.Schema.Name {
+			continue
+		}
+		r := c20NewPKRun(&p, rep, &wi)
+		t0 := time.Now()
+		r.run()
+		r.flush()
+		rep.Max("max_ms_plan_"+p.Schema.Name, time.Since(t0).Milliseconds())
+		rep.Count("scans_plan_"+p.Schema.Name, r.st.scans)
+		if rep.Expired() {
+			return
+		}
+	}
+	if only := os.Getenv("C20_ONLY"); only != "" && only != "skip" {
+		return
+	}
+	env := &c20SkEnv{scratch: kit.Scratch()}
+	for _, sp := range c20SkPlans(kit.Thorough()) {
+		sp := sp
+		t0 := time.Now()
+		sp.run(rep, env, &wi)
+		rep.Max("max_ms_skip_"+sp.Index+"_"+sp.Cols[0].Name+strconv.Itoa(sp.NIdx), time.Since(t0).Milliseconds())
+		if rep.Expired() {
+			return
+		}
+	}
+}
+
+func c20Replay(t *testing.T, rep *kit.Report, cs *c20Case) {
+	p := c20FindPlan(cs.Schema, cs.Tier == "thorough")
+	if p == nil {
+		t.Fatalf("unknown schema %q", cs.Schema)
+	}
+	s := &p.Schema
+	rows := make([]c20Row, len(cs.Rows))
+	for i := range cs.Rows {
+		rows[i] = c20Row(cs.Rows[i])
+	}
+	atoms := cs.Cond.Atoms
+	c := c20Cond{Shape: cs.Cond.Shape, And: cs.Cond.And}
+	for i := range atoms {
+		c.Atoms = append(c.Atoms, i)
+	}
+	tr := c20TimeRange{Min: cs.Time[0], Max: cs.Time[1], Set: cs.TimeSet}
+	rep.Eval(1)
+	switch cs.Part {
+	case "pk":
+		bad, kind, detail := s.checkPKCase(atoms, rows, cs.Layout, c, tr, c20Setting{cs.Coarse, cs.MinSeek, cs.ForceEx}, cs.Warm)
+		if bad {
+			rep.Violation(kind, cs.key(), detail, cs)
+		} else if detail != "" {
+			rep.Note("replay: %s", detail)
+		}
+	default:
+		t.Fatalf("unknown part %q", cs.Part)
+	}
+}
+
+// ---------------------------------------------------------------------------------------------
+// classification of primary-key violations by cause
+// ---------------------------------------------------------------------------------------------
+
+// c20RefKC re-implements KeyConditionImpl.checkInAnyRange (the recursion only; leaf evaluation, range
+// construction and the middle part are the original methods) with two switches:
+//   fixRight   - checkRangeRightBound returns the accumulated mark instead of only the right part's mark
+//   nullFirst  - a null index key is read as -infinity (where the writer's sorter puts it) instead of +infinity
+//   isolate    - every range check works on a private copy of the index columns (Range.turnOpenRangeIntoClosed
+//                rewrites an integer bound in place, i.e. inside the cached index record)
+// It is used only to NAME the cause of a violation that the unmodified code produced.
+type c20RefKC struct {
+	*KeyConditionImpl
+	fixRight, nullFirst, isolate bool
+}
+
+// c20CloneRefs gives the key references private copies of the index columns, so that
+// Range.turnOpenRangeIntoClosed (which rewrites an integer bound in place) cannot reach the cached index record.
+func c20CloneRefs(refs []*FieldRef) []*FieldRef {
+	out := make([]*FieldRef, len(refs))
+	var cols []*ColumnRef
+	for i, f := range refs {
+		if cols == nil && f.cols != nil {
+			cols = make([]*ColumnRef, len(f.cols))
+			for j, c := range f.cols {
+				cv := *c.column
+				cv.Val = append([]byte(nil), cv.Val...)
+				cv.Bitmap = append([]byte(nil), cv.Bitmap...)
+				cv.Offset = append([]uint32(nil), cv.Offset...)
+				cols[j] = &ColumnRef{name: c.name, dataType: c.dataType, column: &cv}
+			}
+		}
+		out[i] = &FieldRef{column: f.column, row: f.row, cols: cols}
+	}
+	return out
+}
+
+func (w *c20RefKC) MayBeInRange(usedKeySize int, l, r []*FieldRef, dataTypes []int) (bool, error) {
+	if w.isolate {
+		l, r = c20CloneRefs(l), c20CloneRefs(r)
+	}
+	if w.nullFirst {
+		for i := 0; i < usedKeySize; i++ {
+			if l[i].IsPositiveInfinity() {
+				l[i].SetNegativeInfinity()
+			}
+			if r[i].IsPositiveInfinity() {
+				r[i].SetNegativeInfinity()
+			}
+		}
+	}
+	rgs := make([]*Range, 0, usedKeySize)
+	for i := 0; i < usedKeySize; i++ {
+		if dataTypes[i] == influx.Field_Type_Unknown {
+			rgs = append(rgs, createWholeRangeIncludeBound())
+		} else {
+			rgs = append(rgs, createWholeRangeWithoutBound())
+		}
+	}
+	m, err := w.anyRange(usedKeySize, l, r, true, true, rgs, dataTypes, 0, ConsiderOnlyBeTrue)
+	return m.canBeTrue, err
+}
+
+func (w *c20RefKC) anyRange(keySize int, l, r []*FieldRef, lb, rb bool, rgs []*Range, dt []int, prefix int, init Mark) (Mark, error) {
+	cb := func(rgs []*Range) (Mark, error) { return w.KeyConditionImpl.CheckInRange(rgs, dt) }
+	if !lb && !rb {
+		return cb(rgs)
+	}
+	if lb && rb {
+		for prefix < keySize {
+			if l[prefix].Equals(r[prefix]) {
+				rgs[prefix] = NewRange(l[prefix], l[prefix], true, true)
+				prefix++
+			} else {
+				break
+			}
+		}
+	}
+	if prefix == keySize {
+		return cb(rgs)
+	}
+	res, completed, err := w.KeyConditionImpl.checkRangeLeftRightBound(l, r, lb, rb, keySize, init, rgs, dt, prefix, cb)
+	if err != nil || completed {
+		return res, err
+	}
+	if lb {
+		rgs[prefix] = NewRange(l[prefix], l[prefix], true, true)
+		m, err := w.anyRange(keySize, l, r, true, false, rgs, dt, prefix+1, init)
+		if err != nil {
+			return res, err
+		}
+		res = res.Or(m)
+		if res.isComplete() {
+			return res, nil
+		}
+	}
+	if rb {
+		rgs[prefix] = NewRange(r[prefix], r[prefix], true, true)
+		m, err := w.anyRange(keySize, l, r, false, true, rgs, dt, prefix+1, init)
+		if err != nil {
+			return m, err
+		}
+		if w.fixRight {
+			res = res.Or(m)
+		} else {
+			res = m // what condition.go:checkRangeRightBound returns
+		}
+	}
+	return res, nil
+}
+
+// c20Classifier re-runs the scan on pkRec with the reference recursion (each variant at most once per
+// (index record, condition, setting)); need = fragments that must be returned.
+type c20Classifier struct {
+	pkRec *record.Record
+	mark  fragment.IndexFragment
+	kc    KeyCondition
+	set   c20Setting
+	fs    int
+	snap  [][]byte // pristine index record; restored before and after every variant scan
+	have  [8]bool
+	cov   [8]uint16
+	ok    [8]bool
+}
+
+func (c *c20Classifier) variant(i int) (uint16, bool) {
+	if !c.have[i] {
+		c.have[i] = true
+		if impl, isImpl := c.kc.(*KeyConditionImpl); isImpl {
+			c20RestoreRec(c.pkRec, c.snap)
+			cov, et := c20Scan(c.pkRec, c.mark, &c20RefKC{impl, i&1 != 0, i&2 != 0, i&4 != 0}, c.set, c.fs)
+			c.cov[i], c.ok[i] = cov, et == ""
+			c20RestoreRec(c.pkRec, c.snap)
+		}
+	}
+	return c.cov[i], c.ok[i]
+}
+
+var c20Causes = []string{
+	"pk_right_bound_mark_overwrites_accumulated_result", // bit 0
+	"pk_null_key_read_as_plus_infinity",                 // bit 1
+	"pk_index_int_key_mutated_by_scan",                  // bit 2
+}
+
+// kind: the smallest set of repairs (reference switches) under which the fragments in need are returned; the
+// violation is filed under the first cause of that set, the whole set goes into the detail text.
+func (c *c20Classifier) kind(need uint16) (string, string) {
+	pass := func(i int) bool { cov, ok := c.variant(i); return ok && need&^cov == 0 }
+	if pass(0) {
+		return "pk_fragment_with_match_pruned", "reference recursion does not reproduce the pruning" // unknown cause
+	}
+	for _, i := range []int{1, 2, 4, 3, 5, 6, 7} {
+		if pass(i) {
+			var names []string
+			for b := 0; b < 3; b++ {
+				if i&(1<<b) != 0 {
+					names = append(names, c20Causes[b])
+				}
+			}
+			return names[0], "repairs needed to keep the fragment: " + strings.Join(names, " + ")
+		}
+	}
+	return "pk_fragment_with_match_pruned", "no combination of the known repairs keeps the fragment"
+}
+
+// ---------------------------------------------------------------------------------------------
+// skip indexes: bloom filter, min-max, set
+// ---------------------------------------------------------------------------------------------
+
+type c20File struct{ path string }
+
+func (f *c20File) Path() string { return f.path }
+func (f *c20File) Name() string { return filepath.Base(f.path) }
+
+// free-form atoms for the skip-index part (values are arbitrary strings / integers)
+type c20SkAtom struct {
+	Col string `json:"col"`
+	Typ int    `json:"typ"`
+	Op  string `json:"op"`
+	Lit string `json:"lit"`
+}
+
+func (a c20SkAtom) text() string {
+	lit := a.Lit
+	if a.Typ == influx.Field_Type_String {
+		lit = "'" + lit + "'"
+	}
+	if a.Op == "MATCHPHRASE" {
+		return "MATCHPHRASE(" + a.Col + ", " + lit + ")"
+	}
+	return a.Col + " " + a.Op + " " + lit
+}
+
+func (a c20SkAtom) expr() influxql.Expr {
+	return &influxql.BinaryExpr{Op: c20Tok[a.Op], LHS: &influxql.VarRef{Val: a.Col, Type: c20VarType(a.Typ)}, RHS: c20LitExpr(a.Typ, a.Lit)}
+}
+
+// truth of an atom on a cell (nil = null). MATCHPHRASE uses the row filter's own token finder
+// (lib/tokenizer.SimpleTokenFinder with the default split table) - that is what a full scan evaluates.
+func (a c20SkAtom) truth(cell *string) bool {
+	if cell == nil {
+		return false
+	}
+	switch a.Typ {
+	case influx.Field_Type_String:
+		if a.Op == "MATCHPHRASE" {
+			return c20PhraseMatch(*cell, a.Lit)
+		}
+		return c20CmpOp(a.Op, strings.Compare(*cell, a.Lit))
+	case influx.Field_Type_Int:
+		x, _ := strconv.ParseInt(*cell, 10, 64)
+		y, _ := strconv.ParseInt(a.Lit, 10, 64)
+		c := 0
+		if x < y {
+			c = -1
+		} else if x > y {
+			c = 1
+		}
+		return c20CmpOp(a.Op, c)
+	case influx.Field_Type_Float:
+		x, _ := strconv.ParseFloat(*cell, 64)
+		y, _ := strconv.ParseFloat(a.Lit, 64)
+		c := 0
+		if x < y {
+			c = -1
+		} else if x > y {
+			c = 1
+		}
+		return c20CmpOp(a.Op, c)
+	}
+	panic("type")
+}
+
+func c20CmpOp(op string, c int) bool {
+	switch op {
+	case "=":
+		return c == 0
+	case "!=":
+		return c != 0
+	case "<":
+		return c < 0
+	case "<=":
+		return c <= 0
+	case ">":
+		return c > 0
+	case ">=":
+		return c >= 0
+	}
+	panic("op " + op)
+}
+
+type c20SkCol struct {
+	Name string
+	Typ  int
+	Dom  []*string // nil entry = null
+	ByPosition bool
+}
+
+type c20SkCase struct {
+	Part   string      `json:"part"`
+	Index  string      `json:"index"` // bloomfilter | minmax | set
+	Cols   []string    `json:"cols"`
+	Types  []int       `json:"types"`
+	Rows   [][]*string `json:"rows"` // per row, per column; null = JSON null
+	Layout []int       `json:"layout"`
+	Atoms  []c20SkAtom `json:"atoms"`
+	Shape  int         `json:"shape"`
+	And    [2]bool     `json:"and"`
+	Text   string      `json:"text"`
+}
+
+func (cs *c20SkCase) key() string {
+	var rows []string
+	for _, r := range cs.Rows {
+		var p []string
+		for i, c := range r {
+			if c == nil {
+				p = append(p, cs.Cols[i]+"=null")
+			} else {
+				p = append(p, cs.Cols[i]+"="+strconv.Quote(*c))
+			}
+		}
+		rows = append(rows, strings.Join(p, " "))
+	}
+	return fmt.Sprintf("%s cond={%s} rows=[%s] layout=%v", cs.Index, cs.Text, strings.Join(rows, " | "), cs.Layout)
+}
+
+func (cs *c20SkCase) cond() c20Cond {
+	c := c20Cond{Shape: cs.Shape, And: cs.And}
+	for i := range cs.Atoms {
+		c.Atoms = append(c.Atoms, i)
+	}
+	return c
+}
+
+func (cs *c20SkCase) condText() string {
+	t := func(i int) string { return cs.Atoms[i].text() }
+	switch cs.Shape {
+	case 0:
+		return t(0)
+	case 1:
+		return t(0) + " " + c20OpName(cs.And[0]) + " " + t(1)
+	case 2:
+		return "(" + t(0) + " " + c20OpName(cs.And[0]) + " " + t(1) + ") " + c20OpName(cs.And[1]) + " " + t(2)
+	default:
+		return t(0) + " " + c20OpName(cs.And[0]) + " (" + t(1) + " " + c20OpName(cs.And[1]) + " " + t(2) + ")"
+	}
+}
+
+func (cs *c20SkCase) condExpr() influxql.Expr {
+	e := func(i int) influxql.Expr { return cs.Atoms[i].expr() }
+	switch cs.Shape {
+	case 0:
+		return e(0)
+	case 1:
+		return c20Bin(cs.And[0], e(0), e(1))
+	case 2:
+		return c20Bin(cs.And[1], &influxql.ParenExpr{Expr: c20Bin(cs.And[0], e(0), e(1))}, e(2))
+	default:
+		return c20Bin(cs.And[0], e(0), &influxql.ParenExpr{Expr: c20Bin(cs.And[1], e(1), e(2))})
+	}
+}
+
+func (cs *c20SkCase) colIdx(name string) int {
+	for i, c := range cs.Cols {
+		if c == name {
+			return i
+		}
+	}
+	return -1
+}
+
+func (cs *c20SkCase) matchMask() uint16 {
+	am := make([]uint16, len(cs.Atoms))
+	for ai, a := range cs.Atoms {
+		ci := cs.colIdx(a.Col)
+		for i, r := range cs.Rows {
+			if a.truth(r[ci]) {
+				am[ai] |= 1 << i
+			}
+		}
+	}
+	return cs.cond().mask(am)
+}
+
+func c20SkColVal(typ int, rows [][]*string, ci int) *record.ColVal {
+	cv := &record.ColVal{}
+	for _, r := range rows {
+		c := r[ci]
+		switch typ {
+		case influx.Field_Type_String:
+			if c == nil {
+				cv.AppendStringNull()
+			} else {
+				cv.AppendString(*c)
+			}
+		case influx.Field_Type_Int:
+			if c == nil {
+				cv.AppendIntegerNull()
+			} else {
+				v, _ := strconv.ParseInt(*c, 10, 64)
+				cv.AppendInteger(v)
+			}
+		case influx.Field_Type_Float:
+			if c == nil {
+				cv.AppendFloatNull()
+			} else {
+				v, _ := strconv.ParseFloat(*c, 64)
+				cv.AppendFloat(v)
+			}
+		}
+	}
+	return cv
+}
+
+var c20Finder = tokenizer.NewSimpleTokenFinder(tokenizer.CONTENT_SPLIT_TABLE)
+
+func c20PhraseMatch(content, phrase string) bool {
+	c20Finder.InitInput([]byte(content), []byte(phrase))
+	return c20Finder.Next()
+}
+
+type c20SkEnv struct {
+	scratch   string
+	bfKey     string
+	bfDir     string
+	bfSeq     int
+	sinceGC   int
+}
+
+func (e *c20SkEnv) bloomFile(cs *c20SkCase) (string, error) {
+	var kb strings.Builder
+	for _, r := range cs.Rows {
+		if r[0] == nil {
+			kb.WriteString("\x00N|")
+		} else {
+			kb.WriteString(*r[0] + "|")
+		}
+	}
+	fmt.Fprintf(&kb, "%v", cs.Layout)
+	dataFile := filepath.Join(e.bfDir, "00000001-0001-00000000.tssp")
+	if kb.String() == e.bfKey && e.bfDir != "" {
+		return dataFile, nil
+	}
+	if e.bfDir != "" {
+		_ = os.RemoveAll(e.bfDir)
+	}
+	e.bfSeq++
+	e.bfDir = filepath.Join(e.scratch, "bf"+strconv.Itoa(e.bfSeq))
+	if err := os.MkdirAll(e.bfDir, 0o755); err != nil {
+		return "", err
+	}
+	dataFile = filepath.Join(e.bfDir, "00000001-0001-00000000.tssp")
+	w := NewBloomFilterWriter("", "", "", "", tokenizer.CONTENT_SPLITTER)
+	data := w.GenBloomFilterData(c20SkColVal(cs.Types[0], cs.Rows, 0), cs.Layout, cs.Types[0])
+	name := filepath.Join(e.bfDir, "00000001-0001-00000000."+cs.Cols[0]+colstore.BloomFilterIndexFileSuffix)
+	if err := os.WriteFile(name, data, 0o644); err != nil {
+		return "", err
+	}
+	e.bfKey = kb.String()
+	return dataFile, nil
+}
+
+func c20SkScan(reader SKFileReader, nfrag int) (cov uint16, errText string) {
+	defer func() {
+		if r := recover(); r != nil {
+			errText = fmt.Sprintf("panic: %v", r)
+		}
+	}()
+	sk := NewSKIndexReader(1, 8, 0)
+	frs, err := sk.Scan(reader, fragment.FragmentRanges{fragment.NewFragmentRange(0, uint32(nfrag))})
+	if err != nil {
+		return 0, "error: " + err.Error()
+	}
+	for _, fr := range frs {
+		for j := fr.Start; j < fr.End && int(j) < nfrag; j++ {
+			cov |= 1 << j
+		}
+	}
+	return cov, ""
+}
+
+// c20MinMaxRecord lays the min-max index record out the way MinMaxIndexReader.MayBeInFragment indexes it:
+// row k is the lower bound and row k+1 the upper bound of fragment k (the repository has no writer for this
+// index). For one fragment that is [min, max]; for several fragments of a column that is non-decreasing
+// across fragment boundaries it is [min(f0), min(f1), ..., min(f_last), max(f_last)] (nulls ignored; a
+// fragment with only nulls gives null).
+func c20MinMaxRecord(cs *c20SkCase, nIdx int, bounds []int) *record.Record {
+	var sc record.Schemas
+	for i := 0; i < nIdx; i++ {
+		sc = append(sc, record.Field{Name: cs.Cols[i], Type: cs.Types[i]})
+	}
+	rec := record.NewRecord(sc, false)
+	for ci := 0; ci < nIdx; ci++ {
+		less := func(a, b string) bool {
+			at := c20SkAtom{Typ: cs.Types[ci], Op: "<", Lit: b}
+			return at.truth(&a)
+		}
+		ext := func(j int, wantMax bool) *string {
+			var best *string
+			for i := bounds[j]; i < bounds[j+1]; i++ {
+				c := cs.Rows[i][ci]
+				if c == nil {
+					continue
+				}
+				if best == nil || (wantMax && less(*best, *c)) || (!wantMax && less(*c, *best)) {
+					best = c
+				}
+			}
+			return best
+		}
+		var rows [][]*string
+		nf := len(bounds) - 1
+		for j := 0; j < nf; j++ {
+			rows = append(rows, []*string{ext(j, false)})
+		}
+		rows = append(rows, []*string{ext(nf-1, true)})
+		rec.ColVals[ci] = *c20SkColVal(cs.Types[ci], rows, 0)
+	}
+	return rec
+}
+
+// check executes one skip-index case from scratch.
+func (cs *c20SkCase) check(env *c20SkEnv, nIdx int) (r c20SkResult) {
+	expr := cs.condExpr()
+	opt := &query.ProcessorOptions{Condition: expr}
+	var sc record.Schemas
+	for i := 0; i < nIdx; i++ {
+		sc = append(sc, record.Field{Name: cs.Cols[i], Type: cs.Types[i]})
+	}
+	bounds := c20Bounds(cs.Layout, len(cs.Rows))
+	nfrag := len(cs.Layout)
+	var reader SKFileReader
+	var file interface{}
+	var err error
+	func() {
+		defer func() {
+			if r := recover(); r != nil {
+				err = fmt.Errorf("panic: %v", r)
+			}
+		}()
+		switch cs.Index {
+		case "bloomfilter":
+			var df string
+			if df, err = env.bloomFile(cs); err != nil {
+				return
+			}
+			file = &c20File{df}
+			reader, err = NewBloomFilterIndexReader(rpn.ConvertToRPNExpr(expr), sc[:1], opt, true)
+		case "minmax":
+			idx := c20MinMaxRecord(cs, nIdx, bounds)
+			var r *MinMaxIndexReader
+			r, err = NewMinMaxIndexReader(rpn.ConvertToRPNExpr(expr), sc, opt, true)
+			if err == nil {
+				r.ReadFunc = func(interface{}, *record.Record, bool) (*record.Record, error) { return idx, nil }
+				reader, file = r, "c20"
+			}
+		case "set":
+			reader, err = NewSetIndexReader(rpn.ConvertToRPNExpr(expr), sc, opt, true)
+			file = "c20"
+		}
+		if err == nil {
+			err = reader.ReInit(file)
+		}
+	}()
+	if err != nil {
+		r.errText = "reader: " + err.Error()
+		return
+	}
+	cov, et := c20SkScan(reader, nfrag)
+	if NEGATIVE_INFINITY.row != math.MinInt64 || POSITIVE_INFINITY.row != math.MaxInt64 {
+		// MinMaxIndexReader writes through the shared infinity constants; undo so that later cases are unaffected
+		NEGATIVE_INFINITY.row, POSITIVE_INFINITY.row = math.MinInt64, math.MaxInt64
+		if et == "" {
+			et = "error: global NEGATIVE_INFINITY/POSITIVE_INFINITY modified"
+		} else {
+			et += " (global NEGATIVE_INFINITY/POSITIVE_INFINITY modified)"
+		}
+	}
+	if et != "" {
+		r.errText = et
+		return
+	}
+	match := cs.matchMask()
+	need := c20Needed(bounds, match)
+	r.cov, r.need, r.match = cov, need, match
+	if need&^cov == 0 {
+		return
+	}
+	r.bad = true
+	kind := ""
+	switch cs.Index {
+	case "bloomfilter":
+		kind = "bloom_block_with_match_pruned"
+	case "minmax":
+		kind = "minmax_block_with_match_pruned"
+	default:
+		kind = "set_index_reader_prunes_every_block"
+		if cov != 0 {
+			kind = "set_block_with_match_pruned"
+		}
+	}
+	r.kind = kind
+	r.detail = fmt.Sprintf("blocks with a matching row: %s; blocks MayBeInFragment kept: %s; pruned wrongly: %s; matching rows: %s",
+		c20Bits(need), c20Bits(cov), c20Bits(need&^cov), c20Bits(match))
+	return
+}
+
+type c20SkResult struct {
+	bad              bool
+	kind, detail     string
+	errText          string
+	cov, need, match uint16
+}
+
+
+type c20SkPlan struct {
+	Index    string
+	Cols     []c20SkCol // indexed columns first
+	NIdx     int
+	Sorted   bool // rows non-decreasing on column 0 (nulls first)
+	Rows    [3]int // Rows[k-1] = largest record on which trees of k atoms are run (3-atom trees over Atoms3)
+	Layouts string // "fixed" | "all" | "single"
+	Atoms   []c20SkAtom
+	Atoms3  []c20SkAtom
+}
+
+func c20Str(s string) *string { return &s }
+
+func (p *c20SkPlan) conds() []c20SkCase {
+	var out []c20SkCase
+	for _, a := range p.Atoms {
+		out = append(out, c20SkCase{Atoms: []c20SkAtom{a}})
+	}
+	if p.Rows[1] > 0 {
+		for _, a := range p.Atoms {
+			for _, b := range p.Atoms {
+				out = append(out, c20SkCase{Atoms: []c20SkAtom{a, b}, Shape: 1, And: [2]bool{true}},
+					c20SkCase{Atoms: []c20SkAtom{a, b}, Shape: 1, And: [2]bool{false}})
+			}
+		}
+	}
+	if p.Rows[2] > 0 {
+		for _, a := range p.Atoms3 {
+			for _, b := range p.Atoms3 {
+				for _, c := range p.Atoms3 {
+					for shape := 2; shape <= 3; shape++ {
+						for o := 0; o < 4; o++ {
+							out = append(out, c20SkCase{Atoms: []c20SkAtom{a, b, c}, Shape: shape, And: [2]bool{o&1 != 0, o&2 != 0}})
+						}
+					}
+				}
+			}
+		}
+	}
+	return out
+}
+
+func (p *c20SkPlan) run(rep *kit.Report, env *c20SkEnv, wi *int) {
+	conds := p.conds()
+	var cols []string
+	var types []int
+	radix := []int{}
+	for _, c := range p.Cols {
+		cols = append(cols, c.Name)
+		types = append(types, c.Typ)
+		if !c.ByPosition {
+			radix = append(radix, len(c.Dom))
+		}
+	}
+	var tuples [][]int
+	kit.Odometer(radix, func(d []int) bool { tuples = append(tuples, append([]int(nil), d...)); return true })
+	vio := map[string]int{}
+	var evals, nontrivial, errs int64
+	for n := 1; n <= p.Rows[0]; n++ {
+		var layouts [][]int
+		switch p.Layouts {
+		case "single":
+			layouts = [][]int{{n - 1}}
+		case "fixed":
+			for fs := 1; fs <= 3; fs++ {
+				layouts = append(layouts, c20FixedLayout(n, fs))
+			}
+		default:
+			r := &c20PKRun{p: &c20Plan{AllLayouts: true}}
+			layouts = r.layouts(n)
+		}
+		seq := make([]int, n)
+		var rec func(pos int)
+		rec = func(pos int) {
+			if pos < n {
+				for ti := range tuples {
+					if p.Sorted && pos > 0 && tuples[ti][0] < tuples[seq[pos-1]][0] {
+						continue
+					}
+					seq[pos] = ti
+					rec(pos + 1)
+				}
+				return
+			}
+			rows := make([][]*string, n)
+			for i := 0; i < n; i++ {
+				k := 0
+				for _, c := range p.Cols {
+					if c.ByPosition {
+						rows[i] = append(rows[i], c.Dom[i%len(c.Dom)])
+					} else {
+						rows[i] = append(rows[i], c.Dom[tuples[seq[i]][k]])
+						k++
+					}
+				}
+			}
+			for _, layout := range layouts {
+				mine := kit.Mine(*wi)
+				*wi++
+				if !mine || rep.Expired() {
+					continue
+				}
+				for ci := range conds {
+					cs := conds[ci]
+					if n > p.Rows[len(cs.Atoms)-1] {
+						continue
+					}
+					cs.Part, cs.Index, cs.Cols, cs.Types, cs.Rows, cs.Layout = "skip", p.Index, cols, types, rows, layout
+					res := cs.check(env, p.NIdx)
+					evals++
+					env.sinceGC++
+					if env.sinceGC >= 400 {
+						env.sinceGC = 0
+						runtime.GC() // LineFilterReader file handles are only released by finalizers
+					}
+					if res.errText != "" {
+						errs++
+						if strings.Contains(res.errText, "panic") {
+							rep.Count("sk_"+p.Index+"_panic", 1)
+						}
+						if strings.Contains(res.errText, "INFINITY") {
+							rep.Count("sk_minmax_shared_infinity_constant_modified", 1)
+						}
+						continue
+					}
+					if !res.bad {
+						// non-trivial iff some block was pruned and some row matches
+						if res.match != 0 && res.cov != uint16(1<<len(layout))-1 {
+							nontrivial++
+							if nontrivial&63 == 1 {
+								cs.Text = cs.condText()
+								if rep.DistinctNontrivial(kit.Hash("sk", p.Index, cs.Text, fmt.Sprint(layout))) {
+									rep.Sample(8, map[string]any{"part": "skip:" + p.Index, "case": cs.key(), "blocks_kept": c20Bits(res.cov)})
+								}
+							}
+						}
+						continue
+					}
+					kind, detail := res.kind, res.detail
+					nontrivial++
+					vio[kind]++
+					rep.Count("violations_"+kind, 1)
+					if vio[kind] > 12 {
+						rep.Violation(kind, "", "", nil)
+						continue
+					}
+					cs.Text = cs.condText()
+					cp := cs
+					rep.Violation(kind, cs.key(), detail, cp)
+				}
+			}
+		}
+		rec(0)
+	}
+	rep.Eval(evals)
+	rep.Count("nontrivial_cases", nontrivial)
+	rep.Count("sk_"+p.Index+"_cases", evals)
+	rep.Count("sk_"+p.Index+"_error_or_panic", errs)
+}
+
+
+func c20SkPlans(thorough bool) []c20SkPlan {
+	S, I := influx.Field_Type_String, influx.Field_Type_Int
+	v := c20SkCol{Name: "v", Typ: I, Dom: []*string{c20Str("1"), c20Str("2")}, ByPosition: true}
+	vAtom := c20SkAtom{"v", I, "=", "1"}
+	cmp := func(col string, typ int, lits ...string) []c20SkAtom {
+		var out []c20SkAtom
+		for _, op := range c20Cmp6() {
+			for _, l := range lits {
+				out = append(out, c20SkAtom{col, typ, op, l})
+			}
+		}
+		return out
+	}
+	// bloom filter on string column c (unsorted), non-indexed column v
+	cDom := []*string{nil, c20Str("A"), c20Str("C"), c20Str("AC"), c20Str("A C")}
+	mp := func(l string) c20SkAtom { return c20SkAtom{"c", S, "MATCHPHRASE", l} }
+	bfAtoms := []c20SkAtom{mp("A"), mp("C"), mp("E"), mp("A C"), mp("C A"), mp("AC"),
+		{"c", S, "=", "A"}, {"c", S, "!=", "A"}, {"c", S, ">=", "C"}, vAtom}
+	bfAtoms3 := []c20SkAtom{mp("A"), mp("A C"), mp("E"), {"c", S, "!=", "A"}, vAtom}
+	bfRows := [3]int{3, 3, 2}
+	if thorough {
+		cDom = append(cDom, c20Str("C-A"), c20Str("a"))
+		bfAtoms = append(bfAtoms, mp("a"), mp("C-A"), mp("A-C"))
+		bfAtoms3 = append(bfAtoms3, mp("C"))
+		bfRows = [3]int{4, 3, 3}
+	}
+	sDom := []*string{nil, c20Str("A"), c20Str("C"), c20Str("D")}
+	iDom := []*string{nil, c20Str("1"), c20Str("2")}
+	sAtoms := append(cmp("s", S, "A", "B", "C", "D", "E"), vAtom, c20SkAtom{"v", I, "!=", "1"})
+	iAtoms := append(cmp("i", I, "0", "1", "2", "3"), vAtom, c20SkAtom{"v", I, "!=", "1"})
+	siAtoms := append(append(cmp("s", S, "A", "B", "C", "D"), cmp("i", I, "0", "1", "2", "3")...), vAtom)
+	mmRows, mm2Rows := [3]int{4, 4, 0}, [3]int{2, 2, 0}
+	if thorough {
+		mmRows, mm2Rows = [3]int{6, 5, 0}, [3]int{3, 3, 0}
+	}
+	ps := []c20SkPlan{
+		{Index: "set", Cols: []c20SkCol{{Name: "s", Typ: S, Dom: sDom}, v}, NIdx: 1, Rows: [3]int{2, 0, 0}, Layouts: "fixed", Atoms: sAtoms},
+		{Index: "minmax", Cols: []c20SkCol{{Name: "s", Typ: S, Dom: sDom}, v}, NIdx: 1, Sorted: true, Rows: mmRows, Layouts: "fixed", Atoms: sAtoms},
+		{Index: "minmax", Cols: []c20SkCol{{Name: "i", Typ: I, Dom: iDom}, v}, NIdx: 1, Sorted: true, Rows: mmRows, Layouts: "fixed", Atoms: iAtoms},
+		{Index: "minmax", Cols: []c20SkCol{{Name: "s", Typ: S, Dom: sDom}, {Name: "i", Typ: I, Dom: iDom}, v}, NIdx: 2, Rows: mm2Rows, Layouts: "single", Atoms: siAtoms},
+		{Index: "bloomfilter", Cols: []c20SkCol{{Name: "c", Typ: S, Dom: cDom}, v}, NIdx: 1, Rows: bfRows, Layouts: "all", Atoms: bfAtoms, Atoms3: bfAtoms3},
+	}
+	if thorough {
+		fDom := []*string{nil, c20Str("1.5"), c20Str("2.5")}
+		fAtoms := append(cmp("f", influx.Field_Type_Float, "1.0", "1.5", "2.0", "2.5", "3.0"), vAtom)
+		ps = append(ps, c20SkPlan{Index: "minmax", Cols: []c20SkCol{{Name: "f", Typ: influx.Field_Type_Float, Dom: fDom}, v}, NIdx: 1, Sorted: true,
+			Rows: mmRows, Layouts: "fixed", Atoms: fAtoms})
 	}
 	return ps
 }
